@@ -249,3 +249,60 @@ proof fn lemma_printable_arr(v: Seq<ArrayFieldKind>, i: int, j: int)
 {
     if i < j { lemma_printable_arr(v, i + 1, j); }
 }
+
+// ---- spec side of Value::stringify_write: the text of a static / bound / mixed value ----
+// The template parser (Value::parse_until_before) builds, for text that mixes literal pieces and `{{ e }}` bindings,
+// a left-leaning chain `Plus(Plus(piece, piece), piece)` whose pieces are `LitStr` (a literal piece) or
+// `ToStringWithoutUndefined(e)` (a binding); a lone binding is `e` itself.  Printing is faithful iff each literal piece
+// is written back as escaped text, each binding as `{{` e `}}`, in order -- and a `Plus` the user wrote inside one
+// binding (`{{ 'a' + b }}`: an operand that is not a piece) stays one binding.  A value that is a single blank,
+// non-empty string literal stays a binding: as bare text the parser would drop it.
+spec fn is_mixed(e: Expression) -> bool
+    decreases e,
+{
+    match e {
+        Expression::ToStringWithoutUndefined { .. } | Expression::LitStr { .. } => true,
+        Expression::Plus { left, right, .. } => is_mixed(*left) && is_mixed(*right),
+        _ => false,
+    }
+}
+spec fn bound(e: Expression, names: Seq<Seq<char>>, acc: Seq<char>) -> Seq<char> {
+    emit(e, ExpressionLevel::Cond, names, acc + "{{"@) + "}}"@
+}
+spec fn split_out(e: Expression, names: Seq<Seq<char>>, acc: Seq<char>) -> Seq<char>
+    decreases e,
+{
+    match e {
+        Expression::LitStr { value, .. } => acc + esc_body(value@),
+        Expression::ToStringWithoutUndefined { value, .. } => bound(*value, names, acc),
+        Expression::Plus { left, right, .. } =>
+            if is_mixed(*left) && is_mixed(*right) { split_out(*right, names, split_out(*left, names, acc)) } else { bound(e, names, acc) },
+        _ => bound(e, names, acc),
+    }
+}
+/// what split_expression can print: every binding it reaches is free of ToStringWithoutUndefined nodes
+spec fn split_printable(e: Expression) -> bool
+    decreases e,
+{
+    match e {
+        Expression::LitStr { .. } => true,
+        Expression::ToStringWithoutUndefined { value, .. } => printable(*value),
+        Expression::Plus { left, right, .. } =>
+            if is_mixed(*left) && is_mixed(*right) { split_printable(*left) && split_printable(*right) } else { printable(e) },
+        _ => printable(e),
+    }
+}
+spec fn value_printable(v: Value) -> bool {
+    match v {
+        Value::Static { .. } => true,
+        Value::Dynamic { expression, .. } => split_printable(*expression),
+    }
+}
+spec fn value_out(v: Value, names: Seq<Seq<char>>, acc: Seq<char>) -> Seq<char> {
+    match v {
+        Value::Static { value, .. } => acc + esc_body(value@),
+        Value::Dynamic { expression, .. } =>
+            if (*expression matches Expression::LitStr { value, .. } && value@.len() > 0 && blank(value@)) { bound(*expression, names, acc) }
+            else { split_out(*expression, names, acc) },
+    }
+}
